@@ -110,6 +110,8 @@ pub struct Features {
     /// stream/map folds whose `next` is not unconditionally executed (seq / xor / no-next shapes)
     pub seq_stream_fold: usize,
     pub unbounded_rec: usize,
+    /// stream-like folds nested inside a stream-like fold
+    pub nested_stream_fold: usize,
 }
 
 #[derive(Clone, Debug)]
@@ -509,7 +511,7 @@ impl<'a> Elab<'a> {
                 }
             }
             // ---- recursive append inside a stream fold over SmallObj elements
-            76..=79 if streams => {
+            76..=79 if streams && !self.cfg.stream_fold_par_only => {
                 let cand: Vec<(String, String)> = env
                     .iters
                     .iter()
@@ -663,6 +665,51 @@ impl<'a> Elab<'a> {
 
     fn fold(&mut self, c: &[u16; 4], body: &Sk, last: Option<&Sk>, env: &mut Env, ctx: Ctx) -> I {
         let streams = self.streams_ok();
+        // with streams allowed, make stream folds frequent: when no stream is in scope (or
+        // sometimes anyway) first fill a fresh stream from two peers, then fold over it
+        // clean configuration: a stream-like fold is executed once, i.e. not inside any fold
+        let no_nested = self.cfg.stream_fold_par_only && !env.iters.is_empty();
+        if streams && !no_nested && pick(c[0], 100) < 45 && (env.streams.is_empty() || c[1] % 3 == 0) {
+            let s = self.fresh("$s");
+            let obj = c[1] % 2 == 0;
+            let mut appends = vec![];
+            for k in 0..(2 + (c[2] % 2) as usize) {
+                let func = self.fresh_fun();
+                let ret = if obj { Ret::Const(serde_json::json!({"a": format!("{}-elem", func), "n": k, "p": self.peer_ids()[pick(c[3].wrapping_add(k as u16 * 9973), self.peers.len())]})) } else { Ret::Str };
+                self.services.insert(func.clone(), ret);
+                self.feat.calls += 1;
+                self.feat.stream_appends += 1;
+                let mut args = vec![];
+                for (ia, _) in self.iter_args(env) {
+                    args.push(ia);
+                }
+                appends.push(I::Call {
+                    peer: self.peer_lit(c[2].wrapping_add(k as u16 * 21845)),
+                    svc: Arg::Str("fill".into()),
+                    func: Arg::Str(func),
+                    args,
+                    out: Some(s.clone()),
+                });
+            }
+            let filled = if c[3] % 2 == 0 {
+                self.feat.pars += 1;
+                let last = appends.pop().unwrap();
+                I::par(I::seq_all(appends), last)
+            } else {
+                I::seq_all(appends)
+            };
+            env.streams.push((s.clone(), if obj { Shape::SmallObj } else { Shape::Str }));
+            // force the choice of this stream below
+            let mut c2 = *c;
+            c2[0] = 65535;
+            let f = self.fold_inner(&c2, body, last, env, ctx, Some(s));
+            return I::seq(filled, f);
+        }
+        self.fold_inner(c, body, last, env, ctx, None)
+    }
+
+    fn fold_inner(&mut self, c: &[u16; 4], body: &Sk, last: Option<&Sk>, env: &mut Env, ctx: Ctx, force_stream: Option<String>) -> I {
+        let streams = self.streams_ok();
         // iterable candidates
         #[derive(Clone)]
         enum It {
@@ -686,12 +733,16 @@ impl<'a> Elab<'a> {
             for (n, s) in &env.canon_maps {
                 cands.push(It::CanonMap(n.clone(), s.clone()));
             }
-            for (n, s) in &env.streams {
-                cands.push(It::Stream(n.clone(), s.clone()));
-                cands.push(It::Stream(n.clone(), s.clone()));
-            }
-            for (n, s) in &env.maps {
-                cands.push(It::Map(n.clone(), s.clone()));
+            // "clean" configuration: no stream-like fold nested in a stream-like fold
+            let nested_ok = !(self.cfg.stream_fold_par_only && !env.iters.is_empty());
+            if nested_ok {
+                for (n, s) in &env.streams {
+                    cands.push(It::Stream(n.clone(), s.clone()));
+                    cands.push(It::Stream(n.clone(), s.clone()));
+                }
+                for (n, s) in &env.maps {
+                    cands.push(It::Map(n.clone(), s.clone()));
+                }
             }
         }
         if cands.is_empty() {
@@ -715,13 +766,20 @@ impl<'a> Elab<'a> {
                 out: Some(v.clone()),
             };
             env.scalars.push((v, shape));
-            let f = self.fold(c, body, last, env, ctx);
+            let f = self.fold_inner(c, body, last, env, ctx, None);
             return I::seq(call, f);
         }
         if self.cfg.profile == Profile::Any && c[0] % 37 == 0 {
             cands.push(It::Empty);
         }
-        let it = cands[pick(c[0], cands.len())].clone();
+        let it = match &force_stream {
+            Some(fs) => cands
+                .iter()
+                .find(|x| matches!(x, It::Stream(n, _) if n == fs))
+                .cloned()
+                .unwrap_or_else(|| cands[pick(c[0], cands.len())].clone()),
+            None => cands[pick(c[0], cands.len())].clone(),
+        };
         let iter = self.fresh("i");
         let (iterable, elem, streamlike, src_stream) = match &it {
             It::Scalar(a, s) => {
@@ -737,10 +795,16 @@ impl<'a> Elab<'a> {
                 (Arg::var(n), Shape::Kv(Box::new(s.clone())), false, None)
             }
             It::Stream(n, s) => {
+                if env.iters.iter().any(|(_, _, st, _)| *st) {
+                    self.feat.nested_stream_fold += 1;
+                }
                 self.feat.fold_stream += 1;
                 (Arg::var(n), s.clone(), true, Some(n.clone()))
             }
             It::Map(n, s) => {
+                if env.iters.iter().any(|(_, _, st, _)| *st) {
+                    self.feat.nested_stream_fold += 1;
+                }
                 self.feat.fold_map += 1;
                 (Arg::var(n), Shape::Kv(Box::new(s.clone())), true, Some(n.clone()))
             }
